@@ -13,6 +13,7 @@
  */
 #include "verif.h"
 #include <stdlib.h>
+#include <string.h>
 #include "gf256.h"
 #include "erasure_code.h"
 
@@ -45,6 +46,7 @@ struct inputs {
         uint8_t old[ROWS][LEN1];
         uint8_t vec_i;
         uint8_t order[KK];
+        uint8_t stale_tbl[ROWS * KK * 32]; /* what the caller's table buffer held before ec_init_tables: must not matter */
 };
 DECLARE_INPUTS
 
@@ -56,6 +58,7 @@ harness(void)
         /* every source / destination block is its own exact-size object (LEN bytes) */
         unsigned char *src[KK], *dst[ROWS];
         unsigned char *srcp[KK], *dstp[ROWS];
+        memcpy(tbl, I.stale_tbl, sizeof(tbl));
         ec_init_tables_base(KK, ROWS, I.coef, tbl);
         for (int j = 0; j < KK; j++) {
                 srcp[j] = src[j] = malloc(LEN);
